@@ -366,7 +366,14 @@ func execCorrupt(w *World, st *Step) {
 		release()
 		return
 	}
-	// it joins the world
+	// it joins the world - unless it is valid but not in the form the library itself produces
+	// (Validate accepts a bitmap chunk of exactly 4096 values): C09's invariant walk speaks of
+	// library-made bitmaps only, and what is derived from such an object inherits its form
+	if wk := walk32(dst); wk != "" {
+		w.probe("validated-but-not-canonical: " + wk)
+		release()
+		return
+	}
 	var regions []int
 	if ri >= 0 {
 		regions = []int{ri}
@@ -386,7 +393,43 @@ func frozenStructured(data []byte, seed uint64) ([]byte, string) {
 	r := NewRng(seed)
 	out := append([]byte(nil), data...)
 	i := r.Intn(L.N)
-	switch r.Intn(7) {
+	switch r.Intn(9) {
+	case 7, 8:
+		// a well-laid-out image whose typecodes disagree with the cardinality rule: an array
+		// of more than 4096 values, a bitmap of at most 4096 (the frozen format stores the kind,
+		// the portable format derives it: such a bitmap does not survive a round trip)
+		set, _, perr := model.ParseFrozen(data)
+		if perr != nil {
+			return nil, ""
+		}
+		s := model.EncodeSet32(set, false, func(uint16, int) int { return 0 })
+		// one fabricated chunk in the band around the threshold, at a key of its own
+		n := []int{4097, 4098, 4100, 4112, 4113, 4500, 4096, 4095, 9000}[r.Intn(9)]
+		key := uint16(r.Intn(65536))
+		at := 0
+		for at < len(s.Chunks) && s.Chunks[at].Key < key {
+			at++
+		}
+		if at < len(s.Chunks) && s.Chunks[at].Key == key {
+			return nil, ""
+		}
+		vals := map[uint16]bool{}
+		for len(vals) < n {
+			vals[uint16(r.Intn(65536))] = true
+		}
+		c := model.SChunk{Key: key, Kind: 0, Words: make([]uint64, 1024), CardField: uint16(n - 1)}
+		for v := range vals {
+			c.Words[v>>6] |= 1 << (v & 63)
+		}
+		what := "frozen:array-above-4096"
+		if n > 4096 {
+			c.Rekind(1)
+		} else {
+			c.Rekind(0)
+			what = "frozen:bitmap-at-most-4096"
+		}
+		s.Chunks = append(s.Chunks[:at], append([]model.SChunk{c}, s.Chunks[at:]...)...)
+		return model.EncodeFrozen(s), what
 	case 0:
 		out[L.Types[0]+i] = []byte{1, 2, 3}[r.Intn(3)]
 		return out, "frozen:typecode-swapped"
